@@ -70,6 +70,7 @@ var vfC21Faults = []vfC21Fault{
 	{"schema-renamed-field", "must"},
 	{"schema-other-type", "must"},
 	{"schema-nullability", "must"},
+	{"schema-field-metadata", "must"}, // same names, types, nullability; a field-level annotation differs
 	{"trailing-garbage-wire", "must"},
 	{"trailing-garbage-plain", "must"},
 	{"trailing-second-stream", "must"},
@@ -371,7 +372,7 @@ func (rt *vfC21RT) RoundTrip(req *http.Request) (*http.Response, error) {
 	case "reencoded-identity":
 		out = plain
 		setEnc("")
-	case "schema-renamed-field", "schema-other-type", "schema-nullability":
+	case "schema-renamed-field", "schema-other-type", "schema-nullability", "schema-field-metadata":
 		rew, err := vfC21Rewrite(plain, func(s *arrow.Schema) *arrow.Schema {
 			return vfC21RenameSchema(s, func(f arrow.Field) arrow.Field {
 				switch fault {
@@ -379,6 +380,8 @@ func (rt *vfC21RT) RoundTrip(req *http.Request) (*http.Response, error) {
 					f.Name = f.Name + "_x"
 				case "schema-nullability":
 					f.Nullable = !f.Nullable
+				case "schema-field-metadata":
+					f.Metadata = arrow.NewMetadata([]string{"unit"}, []string{"us"})
 				case "schema-other-type":
 					f.Type = arrow.PrimitiveTypes.Float64
 				}
@@ -1110,6 +1113,7 @@ func TestVerif_C21(t *testing.T) {
 		{"renamed", vfI64Schema("w")},
 		{"other-type", arrow.NewSchema([]arrow.Field{{Name: "v", Type: arrow.BinaryTypes.String}}, nil)},
 		{"nullable", arrow.NewSchema([]arrow.Field{{Name: "v", Type: arrow.PrimitiveTypes.Int64, Nullable: true}}, nil)},
+		{"field-metadata", arrow.NewSchema([]arrow.Field{{Name: "v", Type: arrow.PrimitiveTypes.Int64, Metadata: arrow.NewMetadata([]string{"unit"}, []string{"ms"})}}, nil)},
 		{"extra-field", vfI64Schema("v", "w")},
 		{"no-fields", arrow.NewSchema(nil, nil)},
 	}
@@ -1198,6 +1202,11 @@ func TestVerif_C21(t *testing.T) {
 				uSchema = real
 			case "nullable":
 				uSchema = vfC21RenameSchema(real, func(f arrow.Field) arrow.Field { f.Nullable = !f.Nullable; return f })
+			case "field-metadata":
+				uSchema = vfC21RenameSchema(real, func(f arrow.Field) arrow.Field {
+					f.Metadata = arrow.NewMetadata([]string{"unit"}, []string{"ms"})
+					return f
+				})
 			}
 			err, pan := vfC21Call(func() error {
 				var e error
